@@ -171,12 +171,22 @@ fn gen_c25(rng: &mut Rng, tier: Tier) -> Value {
     json!({"regime": "c25", "vars": ni, "float_vars": true, "max_queue": 1000, "auto_publish": 2, "tseed": rng.next_u64() >> 12, "steps": steps})
 }
 
+/// priorities over the whole u8 range, boundary values more often
+fn pick_prio(rng: &mut Rng) -> u64 {
+    match rng.below(8) {
+        0 => 0,
+        1 => 255,
+        2 => [1, 127, 128, 254][rng.below(4) as usize],
+        _ => rng.below(256),
+    }
+}
+
 fn gen_c27(rng: &mut Rng, tier: Tier) -> Value {
     let mut steps = Vec::new();
     let nsubs = rng.urange(2, 4);
     let mut prios: Vec<u64> = Vec::new();
     while prios.len() < nsubs {
-        let p = rng.below(255);
+        let p = pick_prio(rng);
         if !prios.contains(&p) {
             prios.push(p);
         }
@@ -190,6 +200,16 @@ fn gen_c27(rng: &mut Rng, tier: Tier) -> Value {
     steps.push(json!({"op": "tick", "n": 3}));
     let rounds = if tier == Tier::Thorough { rng.urange(10, 40) } else { rng.urange(6, 20) };
     for _ in 0..rounds {
+        if rng.chance(0.12) {
+            // a priority change (to a value no other subscription has); boundary values included
+            let k = rng.urange(0, nsubs - 1);
+            let mut p = pick_prio(rng);
+            while prios.iter().enumerate().any(|(j, q)| j != k && *q == p) {
+                p = pick_prio(rng);
+            }
+            prios[k] = p;
+            steps.push(json!({"op": "modify_sub", "sub": k, "prio": p}));
+        }
         steps.push(json!({"op": "write", "var": 0}));
         // fewer requests than ready notifications (sometimes as many, sometimes none)
         let n = match rng.below(6) {
